@@ -234,6 +234,9 @@ def run(model: Model, rep: Report) -> None:
     from .c20 import drange_rule
 
     drange_rule(model, rep, "C09-R4")
+    from .c20 import overlap_predicate_rule
+
+    overlap_predicate_rule(model, rep, "C09-R6")
     # ---------------------------------------------------------------- R2 homogeneity
     r2 = rep.rule("C09-R2", "HOMOG", "every comparison, sum, min/max and sort key of the layout code is homogeneous in length; parameters are dimensionless", 40)
     targets: List[Tuple[FuncInfo, Dict[str, object]]] = []
